@@ -93,8 +93,8 @@ def e7_validation(seed, n=4000):
     return dict(ok=not bad, violation=False, bound=f"{tried} canonical renderings of random well-formed component records (seed {seed})", mismatches=bad[:5])
 
 
-def main():
-    p = load()
+def main(p=None):
+    p = p or load()
     model = p.get("model") or {}
     if p.get("obligation") == "__e7__":
         done(**e7_validation(int(p.get("seed", 0))))
@@ -127,4 +127,5 @@ def main():
     done(confirmed=False, reason="no record in the bank violates a clause", tried=tried)
 
 
-main()
+if __name__ == "__main__":
+    main()
